@@ -233,6 +233,10 @@ func (i pyInt) Operator(operator Operator, operand pyObject) pyObject {
 		case GreaterThanOrEqual:
 			return newPyBool(i >= o)
 		case Modulo:
+			// As in Python the result takes the sign of the divisor (Go's % truncates towards zero)
+			if m := i % o; m != 0 && (m < 0) != (o < 0) {
+				return m + o
+			}
 			return i % o
 		case In:
 			panic("bad operator: 'in' int")
